@@ -306,7 +306,20 @@ def sx_range(*args):
     return r
 
 
+def sx_tick():
+    """one iteration of a while loop in instrumented code (see loader.Tx.visit_While)"""
+    if core.active():
+        env = core.ctx().env
+        lim = env.get('tick_limit')
+        if lim is not None:
+            n = env.get('ticks', 0) + 1
+            env['ticks'] = n
+            if n > lim:
+                raise core.BoundExceeded(f'while loops passed {lim} iterations on one path')
+
+
 SHADOW_BUILTINS = {
+    '__sx_tick__': sx_tick,
     'range': sx_range,
     'int': sx_int,
     'bool': sx_bool,
